@@ -748,7 +748,9 @@ class StretchyTreeMatcher:
             std_field = stdTup[0]
             std_value = stdTup[1]
 
-            if ins_value is None:
+            if ins_value is None and not (ins_field == 'value' and type(ins).__name__ == 'Constant'):
+                # An optional field the pattern leaves out matches anything, but
+                # the value of the literal `None` is not a left-out field
                 continue
 
             ignore_field = ins_field in ignores
